@@ -8,6 +8,7 @@ import (
 	"verif/mc/dump"
 	"verif/mc/gen/fam"
 	"verif/mc/gen/ircmp"
+	"verif/mc/gen/scale"
 	"verif/mc/props/c05"
 )
 
@@ -57,6 +58,9 @@ func Each(tier string, shard, nShards, stride int, f func(Set)) {
 		emit(s)
 	}
 	for _, s := range inconsistentDeviationSets() {
+		emit(s)
+	}
+	for _, s := range scaleSets(tier) {
 		emit(s)
 	}
 	names, files := c05.Scenarios()
@@ -158,6 +162,40 @@ func inconsistentDeviationSets() []Set {
 	for _, d := range devs {
 		out = append(out, Set{"late", "inconsistent-deviation " + d.name, []dump.File{{Name: "base.yang", Text: base},
 			{Name: "dev.yang", Text: `module dev { namespace "urn:dev"; prefix dev; import base { prefix b; } ` + d.body + ` }`}}})
+	}
+	return out
+}
+
+// scaleSets: the shapes of package scale at every size up to a bound and around the powers of two
+// beyond it - deep nesting (with an augment and a deviation at the bottom), wide containers (plain,
+// copied from a grouping, grafted by an augment), long typedef, identity and grouping chains, many
+// imports, many includes.
+func scaleSets(tier string) []Set {
+	var out []Set
+	add := func(desc string, fs ...dump.File) { out = append(out, Set{"scale", desc, fs}) }
+	deepMax, wideMax := 40, 257
+	if tier == "thorough" {
+		deepMax, wideMax = 70, 1025
+	}
+	for _, n := range scale.Sizes(deepMax, deepMax) {
+		user := `module u { yang-version 1.1; namespace "urn:u"; prefix u; import b { prefix b; } augment ` + scale.DeepPath("b", n) + ` { leaf grafted { type string; } container gc { leaf gl { type int8; } } } deviation ` + scale.DeepPath("b", n) + `/b:x { deviate replace { default changed; } } deviation ` + scale.DeepPath("b", n) + `/b:li { deviate replace { max-elements 3; } } }`
+		add(fmt.Sprintf("scale deep n=%d", n), scale.Deep(n), dump.File{Name: "u.yang", Text: user})
+	}
+	for _, n := range scale.Sizes(36, wideMax) {
+		add(fmt.Sprintf("scale wide n=%d", n), scale.Wide(n)...)
+	}
+	for _, n := range scale.Sizes(40, 129) {
+		f, _ := scale.TypedefChain(n, 0, false)
+		add(fmt.Sprintf("scale typedef-chain n=%d", n), f)
+		add(fmt.Sprintf("scale identity-chain n=%d", n), scale.IdentityChain(n, false))
+		add(fmt.Sprintf("scale identity-fan n=%d", n), scale.IdentityFan(n))
+		add(fmt.Sprintf("scale grouping-chain n=%d", n), scale.GroupingChain(n, false))
+	}
+	for _, n := range scale.Sizes(20, 65) {
+		add(fmt.Sprintf("scale imports n=%d", n), scale.Imports(n)...)
+		add(fmt.Sprintf("scale includes n=%d", n), scale.Includes(n, false)...)
+		add(fmt.Sprintf("scale includes-nested n=%d", n), scale.Includes(n, true)...)
+		add(fmt.Sprintf("scale groupings n=%d", n), scale.ManyGroupings(n)...)
 	}
 	return out
 }
